@@ -1,7 +1,7 @@
 INIT Init
 NEXT Next
 CONSTANTS
-  Alphabet = {"q", "b", "n", "0", "x", "N", "w", "L", "M"}
+  Alphabet = {"q", "b", "n", "x", "w", "L", "M"}
   MaxLen = 6
   Alphabet2 = {}
   MaxLen2 = 0
